@@ -7,7 +7,7 @@ import enum
 import typing
 from typing import Any, Callable, Dict, FrozenSet, Generic, Iterable, List, Literal, Mapping, NewType, Optional, Sequence, Set, Tuple, Type, TypeVar, Union, Collection
 
-from typing_extensions import NotRequired, Protocol, Required, TypedDict, Unpack
+from typing_extensions import NotRequired, Protocol, ReadOnly, Required, TypedDict, Unpack
 
 
 class A:
@@ -264,6 +264,76 @@ def flip() -> bool:
 def zero() -> int:
     """An int the checker cannot constant-fold (loop counters start here)."""
     return 0
+
+
+class FPerm(enum.Flag):
+    """A flag enumeration: iterating the class yields R, W, X only; FPerm(0), FPerm.R | FPerm.W, ... are instances too."""
+
+    R = 4
+    W = 2
+    X = 1
+
+
+class IMode(enum.IntFlag):
+    """An int flag enumeration: IMode(0), IMode.A | IMode.B and (boundary KEEP) IMode(4) are instances too."""
+
+    A = 1
+    B = 2
+
+
+# ---------------------------------------------------------------------------
+# TypedDict INHERITANCE family (generated).  Every class declares its own keys with one qualifier each
+# (plain / Required / NotRequired / ReadOnly / Required[ReadOnly] / NotRequired[ReadOnly]) under its own totality and
+# inherits the keys of 0, 1 or 2 bases (1 or 2 levels).  What is required is NOT written down here: the oracle reads
+# CPython's own __required_keys__ / __optional_keys__ / __annotations__ of each class (vp.ty.typeddict_from_class).
+# TDI_SPEC only keeps HOW each key came about (for mechanism keys): name -> (total, {key: (qualifier, declaring class)}).
+_TDI_QUALS = {
+    "p": ("{t}", "int"), "r": ("Required[{t}]", "str"), "n": ("NotRequired[{t}]", "float"), "o": ("ReadOnly[{t}]", "int"),
+    "ro": ("Required[ReadOnly[{t}]]", "str"), "no": ("NotRequired[ReadOnly[{t}]]", "int"),
+}
+TDI_SPEC: Dict[str, Any] = {}
+TDI_NAMES: List[str] = []
+
+
+def _tdi_define(name: str, bases: tuple, total: bool, own: tuple, level: str) -> str:
+    body = [f"    {level}{q}: {_TDI_QUALS[q][0].format(t=_TDI_QUALS[q][1])}" for q in own] or ["    pass"]
+    head = ", ".join(bases) if bases else "TypedDict"
+    exec(f"class {name}({head}{'' if total else ', total=False'}):\n" + "\n".join(body) + "\n", globals())
+    keys = {}
+    for b in bases:
+        keys.update(TDI_SPEC[b][1])
+    keys.update({f"{level}{q}": (q, name) for q in own})
+    TDI_SPEC[name] = (total, keys)
+    TDI_NAMES.append(name)
+    return name
+
+
+def _tdi_family() -> None:
+    tf = {True: "T", False: "F"}
+    own0 = (("p",), ("n",), ("r",), ("o",), ("p", "r", "n", "o"), ("ro", "no"))
+    own1 = ((), ("p",), ("n",), ("r",), ("o",), ("no",))
+    level0, level1 = [], []
+    for total in (True, False):
+        for own in own0:
+            level0.append(_tdi_define(f"TDI_{tf[total]}{''.join(own)}", (), total, own, "a"))
+    for base in level0:
+        for total in (True, False):
+            for own in own1:
+                level1.append((_tdi_define(f"{base}_{tf[total]}{''.join(own)}", (base,), total, own, "b"), own))
+    # second level: below every level-1 class that added nothing or only optional keys
+    for base, own in level1:
+        if own in ((), ("n",), ("no",)):
+            for total in (True, False):
+                for own2 in ((), ("p",)):
+                    _tdi_define(f"{base}_{tf[total]}{''.join(own2)}", (base,), total, own2, "c")
+    # two bases of different totality / qualifiers
+    for b1, b2 in (("TDI_Tp", "TDI_Fn"), ("TDI_Fp", "TDI_Tr"), ("TDI_Fp", "TDI_Fo"), ("TDI_Tn", "TDI_Fo"), ("TDI_Fn", "TDI_Fp")):
+        for total in (True, False):
+            for own in ((), ("p",), ("n",)):
+                _tdi_define(f"TDI_{b1[4:]}x{b2[4:]}_{tf[total]}{''.join(own)}", (b1, b2), total, own, "b")
+
+
+_tdi_family()
 
 
 __all__ = [n for n in dir() if not n.startswith("_")]
